@@ -6,6 +6,7 @@ import (
 	"github.com/basecomplextech/baselibrary/logging"
 	"github.com/basecomplextech/baselibrary/ref"
 	"github.com/basecomplextech/baselibrary/status"
+	"github.com/basecomplextech/spec"
 	"github.com/basecomplextech/spec/internal/zzverif"
 	"github.com/basecomplextech/spec/mpx"
 	"github.com/basecomplextech/spec/proto/prpc"
@@ -649,5 +650,15 @@ func ZZ_C04_ClientStream() {
 		zzverif.Assert(string(h.got[i]) == string(msgs[i]), "streamed message differs or out of order")
 	}
 	zzverif.Assert(len(sch.sent) == 1 && sch.closedSend, "one closing response")
+	zzverif.Reach("done")
+}
+
+// ZZ_C04_StatusCode: the status code a caller sees is the code the handler produced, for EVERY code
+// string of length L (all built-in codes and every application-defined one): the mapping that interns
+// the well-known codes is the identity on strings.
+func ZZ_C04_StatusCode() {
+	code := zzverif.String(zzverif.Param("L"))
+	got := parseStatusCode(spec.String(code))
+	zzverif.Assert(string(got) == code, "status code changed on the way to the caller")
 	zzverif.Reach("done")
 }
